@@ -457,7 +457,7 @@ impl Property for C18 {
     }
     fn budget(&self, tier: Tier) -> u64 {
         match tier {
-            Tier::Quick => 2_000_000,
+            Tier::Quick => 4_000_000,
             Tier::Thorough => GRID + 1_000_000,
         }
     }
